@@ -105,6 +105,8 @@ PROFILES['C11'] = [
     ('every-variant-short-stacks-showdowns', 180, 1800, dict(rake_p=0.0, stacks='short'), dict(probe_level=1, illegal=0.05, raise_=0.5, allin=0.2, fold=0.04)),
     ('hand-history-variant-codes', 110, 1100, dict(rake_p=0.0, boards=(1,), via_phh=True, variants=['FT', 'NT', 'NS', 'PO', 'FO/8', 'F7S', 'F7S/8', 'FR', 'N2L1D', 'F2L3D', 'FB']),
      dict(probe_level=1, illegal=0.05, raise_=0.4, fold=0.08)),
+    ('game-written-to-a-hand-history-and-read-back', 84, 840, dict(rake_p=0.0, boards=(1,), via_phh='written'),
+     dict(probe_level=1, illegal=0.05, raise_=0.4, fold=0.08)),
 ]
 
 NEEDS = {
@@ -326,6 +328,7 @@ def check_C11(run: Run):
     if missing:
         from .runner import Vacuous
         raise Vacuous(f'variants never played: {missing}')
+    run.need('code-written')
     run.rule += ' every hand is validated against the model instantiated with Variants!Def(name, small bet, big bet)'
 
 
